@@ -4,6 +4,7 @@ package c10
 import (
 	"bytes"
 	"fmt"
+	"regexp"
 	"runtime/debug"
 	"sort"
 	"strings"
@@ -309,9 +310,47 @@ func hasBoolNullKey(t hcl.Traversal) bool {
 
 // compareVariables: the traversals of the writer expression are, in order, those of the native expression.
 // A writer traversal exposes only its tokens, so it is re-read with the native expression parser.
+// neededRoots finds root variables the expression really depends on without asking the library which variables
+// it has: the expression is evaluated in an empty scope and the names of the "Unknown variable" errors are
+// collected (a lower bound: branches that are not reached report nothing).
+func neededRoots(e hclsyntax.Expression) (names []string) {
+	defer func() { recover() }()
+	_, diags := e.Value(&hcl.EvalContext{Variables: map[string]cty.Value{}})
+	seen := map[string]bool{}
+	for _, d := range diags {
+		if d.Summary != "Unknown variable" {
+			continue
+		}
+		if m := unknownVarRe.FindStringSubmatch(d.Detail); m != nil && !seen[m[1]] {
+			seen[m[1]] = true
+			names = append(names, m[1])
+		}
+	}
+	sort.Strings(names)
+	return names
+}
+
+var unknownVarRe = regexp.MustCompile(`There is no variable named "([^"]+)"`)
+
 func compareVariables(cs *caseState, na *hclsyntax.Attribute, wa *hclwrite.Attribute, path string) {
 	nvars := na.Expr.Variables()
 	wvars := wa.Expr().Variables()
+	// every root the evaluation asks the scope for must be the root of an exposed traversal
+	reported := map[string]bool{}
+	for _, wv := range wvars {
+		for _, t := range wv.BuildTokens(nil) {
+			if t.Type == hclsyntax.TokenIdent {
+				reported[string(t.Bytes)] = true
+				break
+			}
+		}
+	}
+	for _, n := range neededRoots(na.Expr) {
+		if !reported[n] {
+			cs.fail("variable-reference-not-exposed", fmt.Sprintf("%s refers to the variable %q (evaluating it in an empty scope reports it as unknown), but no traversal exposed by Expr().Variables() has that root", path, n), n)
+			return
+		}
+	}
 	if len(nvars) != len(wvars) {
 		cs.fail("variables-count", fmt.Sprintf("Expr().Variables() of %s has %d traversals, the native expression has %d", path, len(wvars), len(nvars)), "")
 		return
